@@ -409,7 +409,30 @@ func trkUDP(c *Ctx, uc udpCase, tc trkCase) {
 			}
 		}()
 		src := append(net.IP{}, uc.src...)
-		v6 := len(uc.src) == 16 && src.To4() == nil
+		// the family the client itself expects to be in: its source address, or - with spoofing allowed - the
+		// non-zero address it supplied (specification of C11, not taken from the code under test)
+		self := append(net.IP{}, uc.src...)
+		if s4 := self.To4(); s4 != nil {
+			self = s4
+		}
+		if uc.spoof && len(uc.pkt) >= 98 {
+			switch binary.BigEndian.Uint32(uc.pkt[8:12]) {
+			case 1:
+				if f := uc.pkt[84:88]; string(f) != "\x00\x00\x00\x00" {
+					self = append(net.IP{}, f...)
+				}
+			case 4:
+				if len(uc.pkt) >= 110 {
+					if f := uc.pkt[84:100]; string(f) != string(make([]byte, 16)) {
+						self = append(net.IP{}, f...)
+						if s4 := self.To4(); s4 != nil {
+							self = s4
+						}
+					}
+				}
+			}
+		}
+		v6 := len(self) == 16
 		pre := ""
 		if isAnn {
 			pre = scrapeCounts(ih, v6)
@@ -478,7 +501,7 @@ func trkUDP(c *Ctx, uc udpCase, tc trkCase) {
 				} else if len(uc.pkt) >= 110 {
 					port = uc.pkt[108:110]
 				}
-				selfOnly = string(d[20:]) == string(uc.src)+string(port)
+				selfOnly = string(d[20:]) == string(self)+string(port)
 			}
 			lch, sdr := binary.BigEndian.Uint32(d[12:16]), binary.BigEndian.Uint32(d[16:20])
 			return fmt.Sprintf("ok a=%d tx=%s c=%d i=%d iv=%d miv=%d n4=%d n6=%d pre=%s post=%s %s", act, hx(d[4:8]), sdr, lch, binary.BigEndian.Uint32(d[8:12]),
